@@ -6,9 +6,20 @@
   with the *contents* manager, whose `all_combinations` de-duplicates on contents: tuples of names for a dict,
   tuples of values for a list.  The run on bare values therefore sees the splits of the run on named items "up to
   duplicates": where the named run explores two combinations with the same value-contents, the value run explores
-  one.  §1 gives the generator a big-step semantics `G` (the yields of the sub-tree of a heap), §2 shows that the
-  yields of the named run *reduce* (`Red`) to those of the value run, §0 that a fold which only keeps strict
-  improvements cannot see the difference.
+  one.  §1 gives the generator a big-step semantics `G` (the yields of the sub-tree of a heap; `run_yields`: the
+  loop computes it), §2 shows that the yields of the named run *reduce* (`Red`) to those of the value run (`G_red`:
+  heaps related by `HR` — same differences and value images, counters increasing on both sides so that the pops agree
+  — have one child each, two children pairwise related, or two children of the named run related to the single child
+  of the value run, `children_rel`), §0 that a fold which only keeps strict improvements of a state-free score
+  cannot see the difference (`keep_fold_red`), §3 puts it together:
+
+    `ckkGen_red`            the splits yielded on named items reduce to those yielded on their values
+    `rnpRecF_four_values`, `rnpRecF_five_values`
+    **`rnpF_list_dict_sums`**   `k ≤ 5 → 0 < k → rnpF v nm k c₁ items f₁ = .ok b₁ →
+                                 rnpF id id k c₂ (items.map v) f₂ = .ok b₂ → b₂.sums = b₁.sums`
+                             (arbitrary items, `[LawfulBEq α]`; k ∈ {2, 3} is `CKKDedupe.rnpF_list_dict_sums_partial_k_le_three`)
+    **`rnpF_sums_any`**         two runs on the same items, any managers, any fuels: same sums (C06 with
+                             independent fuels; `SumsOnly.rnpF_sums_manager_independent` needs equal fuels)
 -/
 import Prtpy
 import PrtpyProofs.Part
@@ -23,6 +34,7 @@ import PrtpyProofs.CKKF
 import PrtpyProofs.CKKFAux
 import PrtpyProofs.CKKFSwitch
 import PrtpyProofs.CKKFSwitch2
+import PrtpyProofs.CKKFSwitch3
 import PrtpyProofs.CKKDedupe
 import Mathlib.Data.List.Perm.Basic
 open Prtpy
@@ -786,8 +798,8 @@ theorem children_cnt_le (nm : α → Nat) [BEq α] (c : Nat) (e1 e2 : HEntry α)
 
 theorem thread_mono {f : Nat → Heap α → List (Bins α) × Nat} (hf : ∀ c g, c ≤ (f c g).2) :
     ∀ (l : List (Heap α)) (c : Nat), c ≤ (thread f c l).2
-  | [], c => Nat.le_refl _
-  | g :: gs, c => Nat.le_trans (hf c g) (thread_mono hf gs _)
+  | [], _ => Nat.le_refl _
+  | g :: gs, c => Nat.le_trans (hf c g) (thread_mono hf gs (f c g).2)
 
 theorem G_mono (nm : α → Nat) [BEq α] (k : Nat) (B : EInt) : ∀ (n c : Nat) (h : Heap α), c ≤ (G nm k B n c h).2 := by
   intro n
@@ -921,4 +933,349 @@ theorem G_red {v nm : α → Nat} [BEq α] [LawfulBEq α] (B : EInt) :
                 (ih _ _ d2 l r2 (cntOK_mono (G_mono nm 2 B n _ d1) (kd d2 (by simp)))
                   (kd' l (by simp)) (kl l (by simp)) (klen d2 (by simp)))
 
+/-! ## 3. the generator on named items and on values; the even case of RNP -/
+
+theorem pushAll_cntOK (v : α → Nat) (k : Nat) : ∀ (xs : List α) (h : Heap α) (c : Nat), CntOK c h →
+    CntOK (pushAll v k xs h c).2 (pushAll v k xs h c).1
+  | [], _, _, hh => hh
+  | x :: xs, h, c, hh => by
+    simp only [pushAll]
+    exact pushAll_cntOK v k xs _ _ (hpush_cntOK _ hh)
+
+theorem pushAll_binsSorted : ∀ (xs : List Nat) (h : Heap Nat) (c : Nat),
+    (∀ e ∈ h, ∀ l ∈ e.bins.lists, l.Pairwise (· ≤ ·)) →
+    ∀ e ∈ (pushAll id 2 xs h c).1, ∀ l ∈ e.bins.lists, l.Pairwise (· ≤ ·)
+  | [], _, _, hh => hh
+  | x :: xs, h, c, hh => by
+    simp only [pushAll]
+    apply pushAll_binsSorted xs
+    intro e he l hl
+    simp only [hpush, List.mem_append, List.mem_singleton] at he
+    rcases he with he | rfl
+    · exact hh e he l hl
+    · have := mem_sortAsc_lists hl
+      have e2 : (single id 2 x).lists = [[], [x]] := rfl
+      rw [e2] at this
+      simp only [List.mem_cons, List.not_mem_nil, or_false] at this
+      rcases this with rfl | rfl <;> simp
+
+theorem key3_mapEntry (v : α → Nat) (e : HEntry α) : key3 id (Natural.mapEntry v e) = key3 v e := by
+  simp only [key3, Natural.mapEntry, CV, mapLists, Bins.mapItems, List.map_map]
+  congr 2
+  apply List.map_congr_left
+  intro l _
+  simp only [Function.comp, cvl, List.map_map]
+  rfl
+
+/-- the initial heaps of the two generators -/
+theorem init_rel (v : α → Nat) {rem : List α} {remN : List Nat} (hp : (rem.map v).Perm remN) :
+    HR v (pushAll v 2 (sortDesc v rem) [] 0).1 (pushAll id 2 (sortDesc id remN) [] 0).1 ∧
+    CntOK (pushAll v 2 (sortDesc v rem) [] 0).2 (pushAll v 2 (sortDesc v rem) [] 0).1 ∧
+    CntOK (pushAll id 2 (sortDesc id remN) [] 0).2 (pushAll id 2 (sortDesc id remN) [] 0).1 ∧
+    LInv (pushAll id 2 (sortDesc id remN) [] 0).1 := by
+  have hsort : sortDesc id remN = (sortDesc v rem).map v := by
+    rw [← Natural.sortDesc_map v v id (fun _ => rfl) rem]
+    exact Natural.sortDesc_id_perm hp.symm
+  have hnat := Natural.pushAll_natural v v id (fun _ => rfl) 2 (sortDesc v rem) [] 0
+  simp only [List.map_nil] at hnat
+  refine ⟨?_, pushAll_cntOK v 2 _ [] 0 ⟨List.Pairwise.nil, fun _ h => by cases h⟩,
+    pushAll_cntOK id 2 _ [] 0 ⟨List.Pairwise.nil, fun _ h => by cases h⟩, ?_⟩
+  · rw [hsort, hnat]
+    unfold HR
+    rw [List.map_map]
+    apply List.map_congr_left
+    intro e _
+    exact (key3_mapEntry v e).symm
+  · intro e he
+    have hinv := CKKValid.init_inv (v := id) (k := 2) (by decide) remN
+    obtain ⟨l, c, _, _⟩ := hinv.2 e he
+    refine ⟨c, by rw [Part.consistent_length id c, l], ?_⟩
+    exact pushAll_binsSorted _ [] 0 (fun _ h => by cases h) e he
+
+/-- **the splits yielded on named items reduce to the splits yielded on their values** -/
+theorem ckkGen_red {v nm : α → Nat} [BEq α] [LawfulBEq α] {rem : List α} {remN : List Nat} {d0 fuel fuel' : Nat}
+    {tops : List (Bins α)} {tops' : List (Bins Nat)} (hp : (rem.map v).Perm remN)
+    (h : ckkGen v nm 2 true rem (some d0) fuel = .ok tops)
+    (h' : ckkGen id id 2 true remN (some d0) fuel' = .ok tops') : Red (VEq v) tops tops' := by
+  unfold ckkGen at h h'
+  simp only [Option.isNone_some] at h h'
+  split at h
+  · cases h
+  · rename_i hd
+    split at h'
+    · cases h'
+    · rename_i hd'
+      cases h; cases h'
+      have hd1 : (ckkRun nm 2 true true false fuel (ckkInit v 2 rem (.fin (-(d0 : Int))))).done = true := by
+        simpa using hd
+      have hd2 : (ckkRun id 2 true true false fuel' (ckkInit id 2 remN (.fin (-(d0 : Int))))).done = true := by
+        simpa using hd'
+      rw [run_yields nm 2 fuel _ rfl hd1, run_yields id 2 fuel' _ rfl hd2]
+      obtain ⟨r1, r2, r3, r4⟩ := init_rel v hp
+      simp only [ckkInit, List.append_nil, List.reverse_reverse, GS, thread]
+      rw [← hr_length r1]
+      exact G_red _ _ _ _ _ _ r1 r2 r3 r4 rfl
+
+/-- the score of a split in the even case (four bins): the 2-way searches on its two halves -/
+def score (v nm : α → Nat) [BEq α] (c : Bool) (fuel : Nat) (prior : Bins α) (top : Bins α) :
+    Except Err (Bins α × Nat) :=
+  match ckk2 v nm c (top.lists.getD 0 []) fuel with
+  | .error e => .error e
+  | .ok nb1 =>
+    match ckk2 v nm c (top.lists.getD 1 []) fuel with
+    | .error e => .error e
+    | .ok nb2 => .ok (nb1.concat nb2, spread (nb1.sums ++ nb2.sums ++ prior.sums))
+
+theorem rnpRecF_succ_two (v nm : α → Nat) [BEq α] (c : Bool) (fuel rf : Nat) (prior best : Bins α)
+    (items : List α) : rnpRecF v nm c fuel (rf + 1) 2 prior best items = ckk2 v nm c items fuel := by
+  rw [rnpRecF]
+  simp only [BEq.rfl, if_true]
+
+/-- the loop body of the even case with halves of two bins keeps strict improvements of a state-free score -/
+theorem evenStep_keep (v nm : α → Nat) [BEq α] (c : Bool) (fuel rf : Nat) (prior : Bins α)
+    (st : Bins α × Nat) (top : Bins α) :
+    SumsOnly.evenStep v nm c fuel (rf + 1) 2 prior st top
+      = keepStep (score v nm c fuel prior) (fun p => p.2) st top := by
+  unfold SumsOnly.evenStep keepStep score
+  simp only [rnpRecF_succ_two]
+  cases ckk2 v nm c (top.lists.getD 0 []) fuel with
+  | error e => rfl
+  | ok nb1 =>
+    cases ckk2 v nm c (top.lists.getD 1 []) fuel with
+    | error e => rfl
+    | ok nb2 => rfl
+
+theorem veq_getD {v : α → Nat} {top : Bins α} {top' : Bins Nat} (h : VEq v top top') (i : Nat) :
+    ((top.lists.getD i []).map v).Perm (top'.lists.getD i []) := by
+  apply cvl_eq_perm
+  have := congrArg Bins.lists h
+  simp only [CV, mapLists] at this
+  rw [← getD_map_cvl, ← getD_map_cvl, this]
+
+/-- **four bins**: the even case on named items and on values -/
+theorem rnpRecF_four_values {v nm : α → Nat} [BEq α] [LawfulBEq α] {c c' : Bool} {fuel fuel' rf rf' : Nat}
+    {prior best r : Bins α} {priorN bestN r' : Bins Nat} {rem : List α} {remN : List Nat}
+    (hpr : prior.sums = priorN.sums) (hb : best.sums = bestN.sums) (hp : (rem.map v).Perm remN)
+    (h : rnpRecF v nm c fuel (rf + 2) 4 prior best rem = .ok r)
+    (h' : rnpRecF id id c' fuel' (rf' + 2) 4 priorN bestN remN = .ok r') : r.sums = r'.sums := by
+  rw [SumsOnly.rnpRecF_four_eq] at h h'
+  rw [← hb] at h'
+  have hemp : remN.isEmpty = rem.isEmpty := by
+    cases rem with
+    | nil => simp at hp; simp [hp]
+    | cons x xs =>
+      cases remN with
+      | nil => simp at hp
+      | cons _ _ => rfl
+  rw [hemp] at h'
+  cases hE : rem.isEmpty with
+  | true => rw [hE] at h; cases h
+  | false =>
+    rw [hE] at h h'
+    simp only [Bool.false_eq_true, if_false] at h h'
+    cases hg : ckkGen v nm 2 true rem (some (spread best.sums)) fuel with
+    | error e => rw [hg] at h; cases h
+    | ok tops =>
+      cases hg' : ckkGen id id 2 true remN (some (spread best.sums)) fuel' with
+      | error e => rw [hg'] at h'; cases h'
+      | ok tops' =>
+        rw [hg] at h; rw [hg'] at h'
+        simp only at h h'
+        have hred := ckkGen_red hp hg hg'
+        have e1 : SumsOnly.evenStep v nm c fuel (rf + 1) 2 prior
+            = keepStep (score v nm c fuel prior) (fun p => p.2) := by
+          funext st top; exact evenStep_keep v nm c fuel rf prior st top
+        have e2 : SumsOnly.evenStep id id c' fuel' (rf' + 1) 2 priorN
+            = keepStep (score id id c' fuel' priorN) (fun p => p.2) := by
+          funext st top; exact evenStep_keep id id c' fuel' rf' priorN st top
+        rw [e1] at h; rw [e2] at h'
+        cases hf : foldE (keepStep (score v nm c fuel prior) (fun p => p.2)) (best, spread best.sums) tops with
+        | error e => rw [hf] at h; cases h
+        | ok st =>
+          cases hf' : foldE (keepStep (score id id c' fuel' priorN) (fun p => p.2))
+              (bestN, spread best.sums) tops' with
+          | error e => rw [hf'] at h'; cases h'
+          | ok st' =>
+            rw [hf] at h; rw [hf'] at h'
+            simp only [Except.map] at h h'
+            cases h; cases h'
+            refine (keep_fold_red (VEq v) _ _ _ _
+              (fun (s : Bins α × Nat) (t : Bins Nat × Nat) => s.1.sums = t.1.sums ∧ s.2 = t.2)
+              (fun _ _ hs => hs.2) ?_ hred (best, spread best.sums) st (bestN, spread best.sums) st'
+              ⟨hb, rfl⟩ hf hf').1
+            intro top top' p p' hveq hs hs'
+            unfold score at hs hs'
+            cases h1 : ckk2 v nm c (top.lists.getD 0 []) fuel with
+            | error e => rw [h1] at hs; cases hs
+            | ok nb1 =>
+              cases h1' : ckk2 id id c' (top'.lists.getD 0 []) fuel' with
+              | error e => rw [h1'] at hs'; cases hs'
+              | ok nb1' =>
+                rw [h1] at hs; rw [h1'] at hs'
+                simp only at hs hs'
+                cases h2 : ckk2 v nm c (top.lists.getD 1 []) fuel with
+                | error e => rw [h2] at hs; cases hs
+                | ok nb2 =>
+                  cases h2' : ckk2 id id c' (top'.lists.getD 1 []) fuel' with
+                  | error e => rw [h2'] at hs'; cases hs'
+                  | ok nb2' =>
+                    rw [h2] at hs; rw [h2'] at hs'
+                    cases hs; cases hs'
+                    have a1 := CKKDedupe.ckk2_sums_values (veq_getD hveq 0) h1 h1'
+                    have a2 := CKKDedupe.ckk2_sums_values (veq_getD hveq 1) h2 h2'
+                    simp only [Bins.concat, a1, a2, hpr, and_self]
+
+/-- **five bins**: the odd case over the four-bin case -/
+theorem rnpRecF_five_values {v nm : α → Nat} [BEq α] [LawfulBEq α] {c c' : Bool} {fuel fuel' rf rf' : Nat}
+    {prior best r : Bins α} {priorN bestN r' : Bins Nat} {rem : List α} {remN : List Nat}
+    (hpr : prior.sums = priorN.sums) (hb : best.sums = bestN.sums) (hp : (rem.map v).Perm remN)
+    (h : rnpRecF v nm c fuel (rf + 3) 5 prior best rem = .ok r)
+    (h' : rnpRecF id id c' fuel' (rf' + 3) 5 priorN bestN remN = .ok r') : r.sums = r'.sums := by
+  rw [SumsOnly.rnpRecF_odd_eq (by rfl)] at h h'
+  have ht : binSum id remN = binSum v rem := by
+    unfold binSum
+    rw [List.map_id]
+    exact (Part.sumL_perm hp).symm
+  rw [ht, ← hb, CKKDedupe.genTree_values v _ _ _ hp] at h'
+  refine CKKDedupe.foldE_hsim (fun (b : Bins α) (b' : Bins Nat) => b.sums = b'.sums) (List.map v)
+    (fun sub => sub.Sublist (sortDesc v rem)) _ _ ?_ _ _ _ _ _
+    (fun sub hs => CKKDedupe.genTree_sublist v _ _ _ _ _ hs) hb h h'
+  intro s s' x t t' hx hs ht1 ht2
+  obtain ⟨nb, hnb, hcase⟩ := SumsOnly.oddStep_cases ht1
+  obtain ⟨nb', hnb', hcase'⟩ := SumsOnly.oddStep_cases ht2
+  have e := rnpRecF_four_values (rf := rf) (rf' := rf')
+    (by simp only [hpr, CKKDedupe.binSum_id_map]) hs
+    (CKKDedupe.findDiff_values v x (sortDesc v rem) rem remN hx (Part.sortDesc_perm v rem) hp) hnb hnb'
+  rw [CKKDedupe.binSum_id_map, ← e, ← hs, ← hpr] at hcase'
+  rcases hcase with ⟨hlt, rfl⟩ | ⟨hle, rfl⟩ <;> rcases hcase' with ⟨hlt', rfl⟩ | ⟨hle', rfl⟩
+  · simp only [Bins.concat, e, hpr]
+  · omega
+  · omega
+  · exact hs
+
+/-- a perfect `kk` answer for one bin -/
+theorem kk_one_spread {v : α → Nat} {items : List α} {best : Bins α} (h : kk v 1 items = .ok best) :
+    spread best.sums = 0 := by
+  have hne : items ≠ [] := by
+    rintro rfl
+    simp [kk, sortDesc, pushAll, kkLoop, htop, hbest] at h
+  have hp := CKKValid.kkValid v 1 items best (by decide) hne h
+  have hl : best.sums.length = 1 := by rw [hp.2.2]; simpa using hp.2.1
+  match hs : best.sums, hl with
+  | [x], _ => exact CKKValid.spread_singleton x
+
+/-- **C07 for recursive number partitioning (`numbins ≤ 5`), the whole vector of sums.**  For arbitrary items
+    (names in any order, repeated values, even repeated items), either manager on either side and any fuels: the run
+    on the named items and the run on the list of their values return the same sums, in the same order.  (For
+    `numbins ≥ 6` the model answers `notImplemented` unless `kk` is already perfect.) -/
+theorem rnpF_list_dict_sums {v nm : α → Nat} [BEq α] [LawfulBEq α] {c₁ c₂ : Bool} {k : Nat}
+    {items : List α} {fuel₁ fuel₂ : Nat} {b₁ : Bins α} {b₂ : Bins Nat} (hk5 : k ≤ 5) (hk : 0 < k)
+    (h₁ : rnpF v nm k c₁ items fuel₁ = .ok b₁) (h₂ : rnpF id id k c₂ (items.map v) fuel₂ = .ok b₂) :
+    b₂.sums = b₁.sums := by
+  by_cases h23 : k = 2 ∨ k = 3
+  · exact CKKDedupe.rnpF_list_dict_sums_partial_k_le_three h23 h₁ h₂
+  unfold rnpF at h₁ h₂
+  rw [Natural.kk_natural v v id (fun _ => rfl) k items] at h₂
+  cases hb : kk v k items with
+  | error e => rw [hb] at h₁; cases h₁
+  | ok best =>
+    rw [hb] at h₁ h₂
+    simp only [Natural2.map_ok] at h₁ h₂
+    have hbs : (best.mapItems v).sums = best.sums := rfl
+    rw [hbs] at h₂
+    split at h₁
+    · rename_i h0
+      rw [if_pos h0] at h₂
+      cases h₁; cases h₂; rfl
+    · rename_i h0
+      rw [if_neg h0] at h₂
+      have h6 : ¬ k ≥ 6 := by omega
+      rw [if_neg h6] at h₁ h₂
+      have hk' : k = 1 ∨ k = 4 ∨ k = 5 := by omega
+      rcases hk' with rfl | rfl | rfl
+      · exact absurd (kk_one_spread hb) h0
+      · refine (rnpRecF_four_values (rf := 3) (rf' := 3) ?_ ?_ ?_ h₁ h₂).symm
+        · rfl
+        · rfl
+        · exact List.Perm.refl _
+      · refine (rnpRecF_five_values (rf := 3) (rf' := 3) ?_ ?_ ?_ h₁ h₂).symm
+        · rfl
+        · rfl
+        · exact List.Perm.refl _
+
+/-- the dict of the counterexample of PrtpyProofs/CKKDedupe.lean: eight items, values `5, 4, 2, 2, 2, 2, 2, 1` -/
+def exItems : List (Nat × Nat) := [(0, 5), (1, 4), (2, 2), (3, 2), (4, 2), (5, 2), (6, 2), (7, 1)]
+
+/-- eight items for five bins -/
+def exItems5 : List (Nat × Nat) := [(7, 11), (6, 9), (5, 9), (4, 6), (3, 6), (2, 4), (1, 4), (0, 4)]
+
+set_option maxRecDepth 100000 in
+/-- non-vacuity, four bins: `kk` is not perfect, the even case runs, and the generator yields 11 splits of the
+    named items but only 7 of their values -/
+example : (⟨[4, 5, 5, 6], [[4], [5], [1, 2, 2], [2, 2, 2]]⟩ : Bins Nat).sums
+    = (⟨[4, 5, 5, 6], [[(1, 4)], [(0, 5)], [(7, 1), (3, 2), (4, 2)], [(6, 2), (2, 2), (5, 2)]]⟩ :
+        Bins (Nat × Nat)).sums :=
+  rnpF_list_dict_sums (v := Prod.snd) (nm := Prod.fst) (c₁ := true) (c₂ := true) (k := 4) (items := exItems)
+    (fuel₁ := 1000) (fuel₂ := 1000) (by decide) (by decide) rfl rfl
+
+set_option maxRecDepth 100000 in
+example : (ckkGen Prod.snd Prod.fst 2 true exItems (some 2) 1000).toOption.map (·.length) = some 11 ∧
+    (ckkGen id id 2 true (exItems.map Prod.snd) (some 2) 1000).toOption.map (·.length) = some 7 := ⟨rfl, rfl⟩
+
+set_option maxRecDepth 100000 in
+/-- non-vacuity, five bins -/
+example : (⟨[9, 9, 12, 11, 12], [[9], [9], [6, 6], [11], [4, 4, 4]]⟩ : Bins Nat).sums
+    = (⟨[9, 9, 12, 11, 12], [[(6, 9)], [(5, 9)], [(3, 6), (4, 6)], [(7, 11)], [(0, 4), (1, 4), (2, 4)]]⟩ :
+        Bins (Nat × Nat)).sums :=
+  rnpF_list_dict_sums (v := Prod.snd) (nm := Prod.fst) (c₁ := true) (c₂ := true) (k := 5) (items := exItems5)
+    (fuel₁ := 1000) (fuel₂ := 1000) (by decide) (by decide) rfl rfl
+
+/-- **C06 for recursive number partitioning, independent fuels**: two runs on the same items, whatever their
+    managers and fuels, return the same vector of sums (`SumsOnly.rnpF_sums_manager_independent` needs equal fuels) -/
+theorem rnpF_sums_any {v nm : α → Nat} [BEq α] [LawfulBEq α] {c₁ c₂ : Bool} {k : Nat} {items : List α}
+    {fuel₁ fuel₂ : Nat} {b₁ b₂ : Bins α} (hk5 : k ≤ 5) (hk : 0 < k)
+    (h₁ : rnpF v nm k c₁ items fuel₁ = .ok b₁) (h₂ : rnpF v nm k c₂ items fuel₂ = .ok b₂) :
+    b₂.sums = b₁.sums := by
+  have hne : items ≠ [] := by
+    rintro rfl
+    simp [rnpF, kk, sortDesc, pushAll, kkLoop, htop, hbest] at h₁
+  obtain ⟨r, hr⟩ := Total.rnpF_total (v := id) (nm := id) (k := k) (contents := true) (items := items.map v)
+    (fuel := Total.ckkFuel 2 (items.map v).length) hk hk5 (by simpa using hne) (Nat.le_refl _)
+  rw [← rnpF_list_dict_sums hk5 hk h₁ hr, ← rnpF_list_dict_sums hk5 hk h₂ hr]
+
+set_option maxRecDepth 100000 in
+example : (⟨[4, 5, 5, 6], [[(1, 4)], [(0, 5)], [(7, 1), (3, 2), (4, 2)], [(6, 2), (2, 2), (5, 2)]]⟩ :
+      Bins (Nat × Nat)).sums
+    = (⟨[4, 5, 5, 6], [[(1, 4)], [(0, 5)], [(7, 1), (3, 2), (4, 2)], [(6, 2), (2, 2), (5, 2)]]⟩ :
+      Bins (Nat × Nat)).sums :=
+  rnpF_sums_any (v := Prod.snd) (nm := Prod.fst) (c₁ := true) (c₂ := false) (k := 4) (items := exItems)
+    (fuel₁ := 1000) (fuel₂ := 500) (by decide) (by decide) rfl rfl
+
 end Prtpy.RNPDict
+
+/-
+Axiom audit (output of `#print axioms` observed with `lake env lean`):
+
+#print axioms Prtpy.RNPDict.keep_fold_red
+  'Prtpy.RNPDict.keep_fold_red' depends on axioms: [propext, Classical.choice, Quot.sound]
+#print axioms Prtpy.RNPDict.run_yields
+  'Prtpy.RNPDict.run_yields' depends on axioms: [propext, Quot.sound]
+#print axioms Prtpy.RNPDict.G_red
+  'Prtpy.RNPDict.G_red' depends on axioms: [propext, Classical.choice, Quot.sound]
+#print axioms Prtpy.RNPDict.ckkGen_red
+  'Prtpy.RNPDict.ckkGen_red' depends on axioms: [propext, Classical.choice, Quot.sound]
+#print axioms Prtpy.RNPDict.rnpRecF_four_values
+  'Prtpy.RNPDict.rnpRecF_four_values' depends on axioms: [propext, Classical.choice, Quot.sound]
+#print axioms Prtpy.RNPDict.rnpRecF_five_values
+  'Prtpy.RNPDict.rnpRecF_five_values' depends on axioms: [propext, Classical.choice, Quot.sound]
+#print axioms Prtpy.RNPDict.rnpF_list_dict_sums
+  'Prtpy.RNPDict.rnpF_list_dict_sums' depends on axioms: [propext, Classical.choice, Quot.sound]
+#print axioms Prtpy.RNPDict.rnpF_sums_any
+  'Prtpy.RNPDict.rnpF_sums_any' depends on axioms: [propext, Classical.choice, Quot.sound]
+
+Counterexample search that preceded the proof (model compiled to a native executable, the code after F11): `rnpF` on a
+dict (names in input order, reversed, and shuffled `i ↦ 7 i + 3 mod n`; contents manager) against `rnpF` on the list
+of values (both managers), all multisets of positive values with the stated largest value, exhaustive:
+  4 bins: n = 8 (largest value ≤ 9), n = 9 (≤ 8), n = 10 (≤ 6), n = 11 (≤ 5), n = 12 (≤ 4);
+  5 bins: n = 8, 9, 10 (≤ 6), n = 11 (≤ 5), n = 12 (≤ 4):  no disagreement.
+-/
